@@ -94,7 +94,9 @@ def obligations(ctx):
     ob("ring_read_vector.contract", "h_ring_read_vector", "ring_read_vector", replace=["ring_read_size"], defs=big)
     ob("ring_write.index_frame_order", "h_ring_write", "ring_write", replace=["memcpy"], defs=dict(big, MEMCPY_CONTRACT=None, ORDER_GHOSTS=None))
     ob("ring_read.index_frame_order", "h_ring_read", "ring_read", replace=["memcpy"], defs=dict(big, MEMCPY_CONTRACT=None, ORDER_GHOSTS=None))
-    ob("lemma.stale_snapshots", "h_stale_lemmas", None, defs=big)
+    ob("lemma.reader_progress", "h_lemma_reader_progress", None, defs=big)
+    ob("lemma.writer_progress", "h_lemma_writer_progress", None, defs=big)
+    ob("lemma.disjoint", "h_lemma_disjoint", None, defs=big)
     smax = "64" if ctx.tier == "quick" else "1024"
     small = {"RING_SMAX": smax, "CONTENT": None, "ORDER_GHOSTS": None}
     bnd = "ring size <= %s (content clauses use CBMC's built-in memcpy)" % smax
@@ -108,4 +110,13 @@ def obligations(ctx):
        replace=["ring_write_size", "ring_write", "rtosc_amessage"], defs=tl)
     ob("ThreadLink_read.contract", "h_tl_read", "ThreadLink_read",
        replace=["ring_read_vector", "ring_read", "rtosc_message_ring_length"], defs=tl)
+    # vacuity guards: the preconditions are satisfiable and the interesting regions are reachable
+    cs = {"RING_SMAX": "8", "ORDER_GHOSTS": None}
+    ob("canary.ring_write", "h_ring_write", "ring_write", defs=cs, canary=True)
+    ob("canary.ring_read", "h_ring_read", "ring_read", defs=cs, canary=True)
+    ct = {"RING_SMAX": "8", "THREADLINK": None}
+    ob("canary.ThreadLink_raw_write", "h_tl_raw_write", "ThreadLink_raw_write",
+       replace=["ring_write_size", "ring_write", "rtosc_message_length"], defs=ct, canary=True)
+    ob("canary.ThreadLink_read", "h_tl_read", "ThreadLink_read",
+       replace=["ring_read_vector", "ring_read", "rtosc_message_ring_length"], defs=ct, canary=True)
     return obls
